@@ -233,10 +233,8 @@ Definition cdescend_one (cfg exitset hist : list nat) (acc : list nat * list nat
         let es2 := match fs_type s with
                    | FHistDeep =>
                      if negb (intersects (ft_targets t) (fs_children s))
-                     then match filter (fun k => i <? k) (ft_targets t) with
-                          | k :: _ => set_union es1 (fs_ancestors (st c k))
-                          | [] => es1
-                          end
+                     then fold_left (fun a k => set_union a (fs_ancestors (st c k)))
+                                    (filter (fun k => i <? k) (ft_targets t)) es1
                      else es1
                    | _ => es1
                    end in
@@ -273,11 +271,8 @@ Definition cdescend_one (cfg exitset hist : list nat) (acc : list nat * list nat
     if negb (intersects es kids) && (negb (intersects cfg kids) || intersects exitset kids) then
       let es1 := set_union es (ccompl i) in
       if negb (intersects (ccompl i) kids) then
-        (* deep completion: the ancestors of the first completion state only *)
-        match filter (fun j => i <? j) (ccompl i) with
-        | j :: _ => (set_union es1 (fs_ancestors (st c j)), ts)
-        | [] => (es1, ts)
-        end
+        (* deep completion: the ancestors of every completion state *)
+        (fold_left (fun a j => set_union a (fs_ancestors (st c j))) (filter (fun j => i <? j) (ccompl i)) es1, ts)
       else (es1, ts)
     else acc
   end.
@@ -687,7 +682,7 @@ Definition b_hist_default (i : nat) (s : bstate) (m : bmem) : res bmem :=
                    do m1 <- bit_or 322 m A_ENTRY (bt_target t) nsb;
                    do m2 <- (if (kind_of (bs_type s) =? CG_STATE_HISTORY_DEEP)%N then
                                do x <- bit_has_and 323 (bt_target t) (bs_children s) nsb;
-                               if x then Ok m1 else b_add_anc_of true (bt_target t) i m1
+                               if x then Ok m1 else b_add_anc_of false (bt_target t) i m1
                              else Ok m1);
                    do m3 <- bit_set_at 324 m2 A_TRSET j; Ok (true, m3)) m.
 
@@ -736,7 +731,7 @@ Definition b_descend_one (i : nat) (m : bmem) : res bmem :=
     if negb c then Ok m else
     do m1 <- bit_or 364 m A_ENTRY (bs_completion s) nsb;
     do d <- bit_has_and 365 (bs_completion s) (bs_children s) nsb;
-    if d then Ok m1 else b_add_anc_of true (bs_completion s) i m1
+    if d then Ok m1 else b_add_anc_of false (bs_completion s) i m1
   else Ok m.
 
 Definition b_entry_set (m : bmem) : res bmem :=
